@@ -173,7 +173,7 @@ func oracleC10(x *scn.Exec) []mc.Violation {
 func init() {
 	register(&PropSpec{
 		ID: "C10", Level: "model_checking",
-		Rule: "explicit-state BFS over sequences of local initiations (SwapOut/SwapIn) and incoming requests on one channel written with 'x' or ':' (plus a second channel as control), deliveries, time-outs (swaps finishing), restarts with recovery and a store write that fails once (e.g. during that recovery); after every event the number of non-terminal swaps per normalised channel id is counted in the store",
+		Rule: "explicit-state BFS over sequences of local initiations (SwapOut/SwapIn) and incoming requests on one channel written with 'x' or ':' (plus a second channel as control), deliveries, time-outs (swaps finishing), restarts with recovery and a store write that fails once (the next one, or the 3rd / 4th next one: in the middle of an initiation or a recovery); after every event the number of non-terminal swaps per normalised channel id is counted in the store",
 		Families: func(tier string) []Family {
 			var out []Family
 			for _, ch := range []string{"btc", "lbtc"} {
@@ -183,7 +183,7 @@ func init() {
 						be = "lnd"
 					}
 					f := Family{Name: ch + "/" + be,
-						Cfg:    &scn.Cfg{Chain: ch, SwapType: "out", AInitiates: true, ALnd: lnd, BLnd: !lnd, Flags: scn.Flags{Time: true, Restart: true, MaxTime: 1, Drop: false, Faults: []string{"store.update"}}},
+						Cfg:    &scn.Cfg{Chain: ch, SwapType: "out", AInitiates: true, ALnd: lnd, BLnd: !lnd, Flags: scn.Flags{Time: true, Restart: true, MaxTime: 1, Drop: false, Faults: []string{"store.update", "store.update#2", "store.update#3"}}},
 						Bounds: pick(tier, mc.Bounds{MaxDepth: 5, MaxDev: 2, Budget: 80 * time.Second, NoCrash: true}, mc.Bounds{MaxDepth: 6, MaxDev: 2, Budget: 10 * time.Minute, NoCrash: true})}
 					f.Cfg.ExtraEnabled, f.Cfg.ExtraApply = c10Enabled, c10Apply
 					f.Cfg.ExtraKey = func(x *scn.Exec) string { n, _ := x.Ctx["c10n"].(int); return fmt.Sprintf("|c10n=%d", n) }
